@@ -1,5 +1,5 @@
 SPECIFICATION Spec
-CONSTANT NStmts = 2
+CONSTANT NStmts = 3
 INVARIANT Inv_ExitModuloKnown
 INVARIANT Emit
 CHECK_DEADLOCK FALSE
